@@ -250,6 +250,30 @@ class Repo:
         for m in self.modules.values():
             for c in m.classes.values():
                 c.bases = [self._resolve_base(m, b) for b in c.node.bases]
+        # A private base class / mixin that the reference tree does not know (methods moved out of a class into `_SomethingMixin`
+        # by a refactoring) is read as part of the classes that inherit from it: its methods, setters and class-level attributes are
+        # also listed on them, unless overridden.  The rules then find a moved method where it was.
+        if not os.environ.get("NQSA_NO_NORMALISE"):
+            try:
+                from . import normalise as _norm
+                known_all = _norm.known_names()
+            except Exception:  # pragma: no cover - without the reference nothing is merged
+                known_all = {}
+            if known_all:
+                for m in self.modules.values():
+                    known = set(known_all.get(m.name, []))
+                    for c in m.classes.values():
+                        if not c.name.startswith("_") or c.name in known:
+                            for k in self.mro(c)[1:]:
+                                if k.module is m and k.name.startswith("_") and not k.name.startswith("__") and k.name not in known:
+                                    for n_, f_ in k.methods.items():
+                                        c.methods.setdefault(n_, f_)
+                                    for n_, f_ in k.setters.items():
+                                        c.setters.setdefault(n_, f_)
+                                    for n_, v_ in k.attrs.items():
+                                        if n_ not in c.attrs:
+                                            c.attrs[n_] = v_
+                                            c.attr_order.append(n_)
 
     def _index_module(self, m: ModuleInfo):
         pkg_parts = m.name.split(".")
